@@ -237,7 +237,7 @@ func (c *Ctx) classifyOperand(fn *ssa.Function, v ssa.Value, rops map[*ssa.Funct
 func ruleFMT(c *Ctx, r *Report) {
 	const rule = "FMT"
 	r.doc(rule, "every fmt.Sprintf/Errorf/Fprintf in the reachable set has a constant format, matching arity and verbs that accept the operand's static type; in the expression renderers an interface operand that is a raw leaf payload admits only %v/%#v, a child expression admits %s/%v/%#v")
-	reach := c.reachFrom(c.rootsC01())
+	reach := c.reachFrom(append(c.rootsC01(), c.rootsC13()...))
 	rops := c.rendererOps()
 	n := 0
 	for _, fn := range sortedFuncs(reach) {
@@ -417,6 +417,18 @@ func (c *Ctx) checkFormat(r *Report, rule string, fn *ssa.Function, key, pos, fs
 			}
 			continue
 		}
+		// an interface operand whose possible dynamic types are known (a parameter of a private helper
+		// that receives concrete values at every call site, or a choice among such): the verb must accept
+		// each of them
+		if dts, known := c.dynTypes(op, 0); known && len(dts) > 0 {
+			for _, dt := range dts {
+				if !verbAccepts(v, dt) {
+					okAll = false
+					r.bad(rule, fmt.Sprintf("%s|verb%d←%s", key, i, typeStr(dt)), pos, fmt.Sprintf("verb %s is applied to an interface operand that holds a %s at one of the call sites of %s: the output contains a %%!%c(%s=…) marker", vs, typeStr(dt), fnName(fn), v.Verb, typeStr(dt)))
+				}
+			}
+			continue
+		}
 		if !text || rops == nil {
 			continue
 		}
@@ -443,4 +455,64 @@ func (c *Ctx) checkFormat(r *Report, rule string, fn *ssa.Function, key, pos, fs
 	if okAll {
 		r.ok(rule, key, pos, fmt.Sprintf("%d verb(s) agree with operands", len(sp.Verbs)))
 	}
+}
+
+// dynTypes: the concrete types an interface-typed value can hold, when every source is visible: a
+// MakeInterface, a phi of such, or a parameter of a private helper (all call sites are static calls in
+// the module) whose arguments are such. known=false when any source is opaque.
+func (c *Ctx) dynTypes(v ssa.Value, depth int) ([]types.Type, bool) {
+	if depth > 4 {
+		return nil, false
+	}
+	v, _ = c.resolveX(v, nil, false)
+	switch x := v.(type) {
+	case *ssa.MakeInterface:
+		if _, isIface := x.X.Type().Underlying().(*types.Interface); isIface {
+			return nil, false
+		}
+		return []types.Type{x.X.Type()}, true
+	case *ssa.ChangeInterface:
+		return c.dynTypes(x.X, depth+1)
+	case *ssa.Phi:
+		var out []types.Type
+		for _, e := range x.Edges {
+			if e == ssa.Value(x) {
+				continue
+			}
+			ts, ok := c.dynTypes(e, depth+1)
+			if !ok {
+				return nil, false
+			}
+			out = append(out, ts...)
+		}
+		return out, true
+	case *ssa.Parameter:
+		fn := x.Parent()
+		sites, private := c.privateHelper(fn)
+		if !private {
+			return nil, false
+		}
+		idx := -1
+		for i, p := range fn.Params {
+			if p == x {
+				idx = i
+			}
+		}
+		if idx < 0 {
+			return nil, false
+		}
+		var out []types.Type
+		for _, s := range sites {
+			if idx >= len(s.Call.Args) {
+				return nil, false
+			}
+			ts, ok := c.dynTypes(s.Call.Args[idx], depth+1)
+			if !ok {
+				return nil, false
+			}
+			out = append(out, ts...)
+		}
+		return out, true
+	}
+	return nil, false
 }
